@@ -189,7 +189,7 @@ def main():
     for i, b in enumerate(sorted(unlisted)):
         v = total.violations[b]
         if os.environ.get("VERIF_NO_EVIDENCE"):
-            rep_dir = os.path.join(os.environ.get("VERIF_REPO", "/tmp"), "replays", prop)
+            rep_dir = os.path.join("/tmp", "verif_replays_%s" % os.path.basename(os.environ.get("VERIF_REPO", "repo").rstrip("/")), prop)
         os.makedirs(rep_dir, exist_ok=True)
         safe = "".join(c if c.isalnum() else "_" for c in b)[:80]
         path = os.path.join(rep_dir, "%s.json" % safe)
